@@ -348,4 +348,105 @@ theorem doubleJac_eq (Q : JacPoint) :
 
 end Cast
 
+/-! ## Part 3: the refinement theorems -/
+section Refine
+open Btc.EC Jacobian.Point
+
+variable (p : ℕ) [Fact p.Prime]
+
+/-- Mathlib's curve `y² = x³ + a x + b` over `ZMod p` for btclib's `CurveGroup(p, a, b)` -/
+def curveOf (c : CurveGroup) : Jacobian (ZMod p) := swc (c.a : ZMod p) (c.b : ZMod p)
+
+/-- abstraction: the point of Mathlib's group denoted by an integer Jacobian triple
+(`0` when `Z = 0` in the field) -/
+noncomputable def absJ (c : CurveGroup) (Q : JacPoint) : (curveOf p c).toAffine.Point :=
+  toAffine (curveOf p c) (castJ p Q)
+
+/-- validity of btclib's Jacobian triple: `Z` is `0` as an integer whenever it is `0` in the field
+(true of every reduced triple `0 ≤ Z < p`), and a triple with `Z ≠ 0` is a nonsingular point of the
+curve.  EVERY triple `(X, Y, 0)` is valid (it denotes infinity), `INFJ = (7,0,0)` included. -/
+def JValid (c : CurveGroup) (Q : JacPoint) : Prop :=
+  ((Q.2.2 : ZMod p) = 0 → Q.2.2 = 0) ∧ (Q.2.2 ≠ 0 → (curveOf p c).Nonsingular (castJ p Q))
+
+variable {p} {c : CurveGroup}
+
+theorem absJ_of_Z_eq_zero {Q : JacPoint} (h : Q.2.2 = 0) : absJ p c Q = 0 := by
+  apply toAffine_of_Z_eq_zero
+  rw [castJ_2, h, Int.cast_zero]
+
+theorem JValid_of_Z_eq_zero {Q : JacPoint} (h : Q.2.2 = 0) : JValid p c Q :=
+  ⟨fun _ => h, fun h' => absurd h h'⟩
+
+theorem JValid_INFJ : JValid p c INFJ := JValid_of_Z_eq_zero rfl
+
+theorem absJ_INFJ : absJ p c INFJ = 0 := absJ_of_Z_eq_zero rfl
+
+/-- Mathlib-valid triples with a reduced `Z` are valid -/
+theorem JValid_of_nonsingular {Q : JacPoint} (hp : c.p = (p : ℤ))
+    (hZ : 0 ≤ Q.2.2 ∧ Q.2.2 < c.p) (h : (curveOf p c).Nonsingular (castJ p Q)) : JValid p c Q := by
+  refine ⟨fun h0 => ?_, fun _ => h⟩
+  have := (emod_eq_zero_iff hp Q.2.2).mpr h0
+  rwa [Int.emod_eq_of_lt hZ.1 hZ.2] at this
+
+theorem JValid.Z_ne {Q : JacPoint} (h : JValid p c Q) (hZ : Q.2.2 ≠ 0) : castJ p Q 2 ≠ 0 :=
+  fun h0 => hZ (h.1 h0)
+
+variable (hp : c.p = (p : ℤ))
+include hp
+
+/-- T1a: `add_jac` computes the group law, all cases (stand-ins, doubling, opposite points). -/
+theorem addJac_spec (Q R : JacPoint) (hQ : JValid p c Q) (hR : JValid p c R) :
+    JValid p c (addJac c Q R) ∧ absJ p c (addJac c Q R) = absJ p c Q + absJ p c R := by
+  by_cases hQz : Q.2.2 = 0
+  · by_cases hRz : R.2.2 = 0
+    · rw [addJac_inf_inf c Q R hQz hRz, absJ_INFJ, absJ_of_Z_eq_zero hQz, absJ_of_Z_eq_zero hRz,
+        add_zero]
+      exact ⟨JValid_INFJ, rfl⟩
+    · rw [addJac_inf_left c Q R hQz hRz, absJ_of_Z_eq_zero hQz, zero_add]
+      exact ⟨hR, rfl⟩
+  · by_cases hRz : R.2.2 = 0
+    · rw [addJac_inf_right c Q R hQz hRz, absJ_of_Z_eq_zero hRz, add_zero]
+      exact ⟨hQ, rfl⟩
+    · have hPn := hQ.2 hQz
+      have hRn := hR.2 hRz
+      have hPz := hQ.Z_ne hQz
+      have hRz' := hR.Z_ne hRz
+      rw [addJac_finite c Q R hQz hRz]
+      by_cases hV : coreV c Q R = 0
+      · rw [if_pos hV]
+        have hV' := (coreV_eq_zero_iff hp Q R).mp hV
+        by_cases hW : coreW c Q R = 0
+        · rw [if_pos hW]
+          have hW' := (coreW_eq_zero_iff hp Q R).mp hW
+          have hc := doubleJacHelper_cast hp Q (Q.2.2 * Q.2.2 % c.p)
+            (Or.inr (by rw [cast_emod hp, Int.cast_mul]; ring))
+          obtain ⟨hn, ha⟩ := same_spec hPn hRn hPz hRz' hV' hW'
+          refine ⟨⟨doubleJacHelper_Z_reduced hp _ _, fun _ => ?_⟩, ?_⟩
+          · rw [hc]; exact hn
+          · rw [absJ, hc]; exact ha
+        · rw [if_neg hW]
+          have hW' : chordW (castJ p Q) (castJ p R) ≠ 0 :=
+            fun h => hW ((coreW_eq_zero_iff hp Q R).mpr h)
+          refine ⟨JValid_INFJ, ?_⟩
+          rw [absJ_INFJ]
+          exact (opp_spec hPn hRn hPz hRz' hV' hW').symm
+      · rw [if_neg hV]
+        have hV' : chordV (castJ p Q) (castJ p R) ≠ 0 :=
+          fun h => hV ((coreV_eq_zero_iff hp Q R).mpr h)
+        obtain ⟨hn, _, ha⟩ := chord_spec hPn hRn hPz hRz' hV'
+        have hc := coreChord_cast hp Q R
+        refine ⟨⟨coreChord_Z_reduced hp _ _, fun _ => ?_⟩, ?_⟩
+        · rw [hc]; exact hn
+        · rw [absJ, hc]; exact ha
+
+theorem addJac_refines (Q R : JacPoint) (hQ : JValid p c Q) (hR : JValid p c R) :
+    absJ p c (addJac c Q R) = absJ p c Q + absJ p c R :=
+  (addJac_spec hp Q R hQ hR).2
+
+theorem addJac_valid (Q R : JacPoint) (hQ : JValid p c Q) (hR : JValid p c R) :
+    JValid p c (addJac c Q R) :=
+  (addJac_spec hp Q R hQ hR).1
+
+end Refine
+
 end Btc.C01
